@@ -3,6 +3,7 @@ Evaluates struct declarations from the AST alone (no import of the package, no
 import of construct) into layouts: ordered named fields with offset, width,
 signedness, endianness and wrapper chain."""
 import ast
+import copy
 from fractions import Fraction
 
 from .loader import AnalysisError, dotted, where
@@ -356,6 +357,13 @@ class Layouts:
                         base = base.value
                     if isinstance(x, ast.Constant) or (isinstance(base, ast.Name) and v[1].get_local(base.id) is None):
                         binds[k] = x
+                    elif not any(isinstance(n_, ast.Name) and v[1].get_local(n_.id) is not None for n_ in ast.walk(x)):
+                        # a local name for a constant expression over module-level constants
+                        try:
+                            self.folder.ev(x, env.mod)
+                            binds[k] = x
+                        except Exception:
+                            pass
             e = e.parent
         if not binds or not isinstance(call, ast.Call):
             return A, call
@@ -393,6 +401,37 @@ class Layouts:
         return A2, call2
 
     # ------------------------------------------------------------ constants
+    def _sum_items(self, arg, env, depth=0):
+        """[(expression, env)] the summands of sum(arg) when arg is a literal table (possibly through one name or a
+        one-generator comprehension over a literal table); None otherwise"""
+        if isinstance(arg, (ast.Tuple, ast.List)) and not any(isinstance(e_, ast.Starred) for e_ in arg.elts):
+            return [(e_, env) for e_ in arg.elts]
+        if isinstance(arg, ast.Name) and depth < 3 and env.get_local(arg.id) is None:
+            r_ = self.prog.resolve(env.mod, arg.id)
+            if r_ and r_[0] == "assign":
+                return self._sum_items(r_[1], Env(r_[2]), depth + 1)
+        if isinstance(arg, (ast.GeneratorExp, ast.ListComp)) and len(arg.generators) == 1 and not arg.generators[0].ifs \
+                and isinstance(arg.generators[0].target, ast.Name) and not arg.generators[0].is_async:
+            rows = self._sum_items(arg.generators[0].iter, env, depth + 1)
+            if rows is None or any(e_ is not env for _, e_ in rows):
+                return None
+            name = arg.generators[0].target.id
+
+            class _S(ast.NodeTransformer):
+                def __init__(self, row):
+                    self.row = row
+
+                def visit_Name(self, n_):
+                    return copy.deepcopy(self.row) if n_.id == name and isinstance(n_.ctx, ast.Load) else n_
+
+            out = []
+            for row, _ in rows:
+                e2 = _S(row).visit(copy.deepcopy(arg.elt))
+                ast.fix_missing_locations(e2)
+                out.append((e2, env))
+            return out
+        return None
+
     def const(self, node, env):
         """constant or Sym for context-dependent expressions"""
         if isinstance(node, ast.Name):
@@ -430,6 +469,13 @@ class Layouts:
             return self.eval_con(node.func.value, env).size if not isinstance(self.eval_con(node.func.value, env), tuple) else unn(self.eval_con(node.func.value, env)).size
         if isinstance(node, ast.Call) and isinstance(node.func, ast.Name) and node.func.id == "len_":
             return Sym("len(" + " ".join(ast.unparse(node.args[0]).split()) + ")")
+        if isinstance(node, ast.Call) and isinstance(node.func, ast.Name) and node.func.id == "sum" and len(node.args) == 1 and not node.keywords:
+            # sum over a literal table of static sizes: sum((A.sizeof(), ..)), sum(TABLE), sum(x.sizeof() for x in (A, ..))
+            items = self._sum_items(node.args[0], env)
+            if items is not None:
+                vals = [self.const(it_, e_) for it_, e_ in items]
+                if all(isinstance(v_, int) and not isinstance(v_, bool) for v_ in vals):
+                    return sum(vals)
         if isinstance(node, ast.BinOp):
             try:
                 a, b = self.const(node.left, env), self.const(node.right, env)
@@ -908,6 +954,10 @@ class Describer:
 
         def fold_sizeof(n_):
             if isinstance(n_, ast.Call) and isinstance(n_.func, ast.Attribute) and n_.func.attr == "sizeof" and not n_.args and not n_.keywords:
+                v_ = self.L.const(n_, Env(mod))
+                if isinstance(v_, int) and not isinstance(v_, bool):
+                    return v_
+            if isinstance(n_, ast.Call) and isinstance(n_.func, ast.Name) and n_.func.id == "sum" and len(n_.args) == 1 and not n_.keywords:
                 v_ = self.L.const(n_, Env(mod))
                 if isinstance(v_, int) and not isinstance(v_, bool):
                     return v_
